@@ -192,8 +192,8 @@ func rulePurgerGuards(r *Report, rule string) {
 			return true
 		}
 		loops++
-		initOK := fs.Init != nil && strings.Contains(exprStr(fs.Init.(*ast.AssignStmt).Rhs[0]), ".First()")
-		postOK := fs.Post != nil && strings.Contains(exprStr(fs.Post.(*ast.AssignStmt).Rhs[0]), ".Next()")
+		initOK := fs.Init != nil && strings.Contains(stmtRhsStr(fs.Init), ".First()")
+		postOK := fs.Post != nil && strings.Contains(stmtRhsStr(fs.Post), ".Next()")
 		if !initOK || !postOK {
 			full = false
 		}
@@ -580,7 +580,7 @@ func ruleCopyScheduledPairing(r *Report, rule string) {
 			if len(s.Lhs) == 1 {
 				if x, ok := ast.Unparen(s.Lhs[0]).(*ast.IndexExpr); ok && isField(cinfo, x.X, "Scorch", "copyScheduled") {
 					ix, pos = x, s.Pos()
-					isDec = s.Tok == token.SUB_ASSIGN || (s.Tok == token.ASSIGN && strings.Contains(exprStr(s.Rhs[0]), "- 1"))
+					isDec = s.Tok == token.SUB_ASSIGN || (s.Tok == token.ASSIGN && strings.Contains(exprStr(resolveCopies(cinfo, cc.Decl.Body, s.Rhs[0])), "- 1"))
 				}
 			}
 		}
@@ -605,7 +605,11 @@ func ruleCopyScheduledPairing(r *Report, rule string) {
 		ok := false
 		for _, f := range cg.GuardsOf(c) {
 			if be, isBin := ast.Unparen(f.Expr).(*ast.BinaryExpr); isBin && f.Truth && (be.Op == token.LEQ || be.Op == token.EQL) && exprStr(be.Y) == "0" {
-				if ix, isIx := ast.Unparen(be.X).(*ast.IndexExpr); isIx && isField(cinfo, ix.X, "Scorch", "copyScheduled") {
+				cnt := ast.Unparen(resolveCopies(cinfo, cc.Decl.Body, be.X))
+				if sub, isSub := cnt.(*ast.BinaryExpr); isSub && sub.Op == token.SUB && exprStr(sub.Y) == "1" {
+					cnt = ast.Unparen(sub.X) // the count after the decrement, held in a local
+				}
+				if ix, isIx := cnt.(*ast.IndexExpr); isIx && isField(cinfo, ix.X, "Scorch", "copyScheduled") {
 					ok = true
 				}
 			}
@@ -628,12 +632,7 @@ func ruleCopyScheduledPairing(r *Report, rule string) {
 	r.Ob(rule, "CopyReader~CloseCopyReader/same-file-name-function", cc.Decl.Pos(), len(a) >= 3 && strings.Join(a, ",") == strings.Join(b, ","),
 		fmt.Sprintf("both sides name a segment's file the same way (filepath.Base(Path()) for persisted, zapFileName(id) otherwise): %v vs %v", a, b))
 	// the decrement loop covers every segment of the snapshot
-	cover := false
-	for _, rs := range rangesOverField(cinfo, cc.Decl.Body, "IndexSnapshot", "segment") {
-		if decKey != nil && len(enclosing(rs.Body, decKey)) > 0 {
-			cover = true
-		}
-	}
+	cover := decKey != nil && loopOverFieldAround(cinfo, cc.Decl.Body, decKey, "IndexSnapshot", "segment") != nil
 	r.Ob(rule, cc.Name+"/every-segment-unscheduled", cc.Decl.Pos(), cover, "every segment of the copied snapshot is un-scheduled")
 }
 
